@@ -19,10 +19,10 @@ from ..common import Failure
 from ..vloop import run_virtual
 
 S = 1_000_000
-(Q, DEAD, T0, T1, TK, HAND, BUF, RET, UND, CALLER, NACK, REJ) = range(12)
+(Q, DEAD, T0, T1, TK, HAND, BUF, RET, UND, CALLER, NACK, REJ, BOUNCE) = range(13)
 LOST = 99
 NAMES = ["queue", "dead", "taking(sent)", "taking(applied)", "taken", "in_hand", "buffer", "returning", "undelivered", "caller",
-         "nacking", "rejecting"]
+         "nacking", "rejecting", "bouncing"]
 # per-message edges of the model (only to PROPOSE events; Coq decides)
 EDGES = {
     Q: [(T0, "HTakeStart")], T0: [(T1, "HTakeApply")], T1: [(TK, "HTakeDone")], TK: [(HAND, "HDetails"), (NACK, "HDetails"), (REJ, "*HFinCollect")],
@@ -32,14 +32,24 @@ EDGES = {
 }
 
 
-def path(a: int, b: int):
+# ... and of its RabbitMQ flavour (the server pushes; T1 = delivered, callback not run yet)
+EDGES_PUSH = {
+    Q: [(T1, "HPushStart")], T1: [(BUF, "HPushDone"), (NACK, "HPushDone"), (BOUNCE, "HBounce")], BOUNCE: [(Q, "HBounceDone")],
+    BUF: [(RET, "HCallGet"), (NACK, "HCallGet"), (REJ, "*HFinCollect")],
+    UND: [(RET, "HCallGet"), (NACK, "HCallGet"), (REJ, "*HFinCollect")], RET: [(CALLER, "HDeliver"), (UND, "*HCancelCall")],
+    NACK: [(DEAD, "HNackDone")], REJ: [(Q, "HRejectDone")], DEAD: [], CALLER: [],
+}
+
+
+def path(a: int, b: int, edges=None):
     """shortest event path from custody a to custody b (None if there is none)"""
+    edges = EDGES if edges is None else edges
     if a == b:
         return []
     seen, dq = {a: []}, deque([a])
     while dq:
         x = dq.popleft()
-        for y, ev in EDGES.get(x, []):
+        for y, ev in edges.get(x, []):
             if y not in seen:
                 seen[y] = seen[x] + [ev]
                 if y == b:
@@ -124,7 +134,11 @@ async def one_run(loop, sc, k, c):
     inner = wrapper.fn
 
     async def logged():
-        msg = await inner()
+        st["inner_active"] = True
+        try:
+            msg = await inner()
+        finally:
+            st["inner_active"] = False
         st["returning"] = redisrun.num(msg[0].id_)
         return msg
     wrapper.fn = logged
@@ -132,8 +146,6 @@ async def one_run(loop, sc, k, c):
 
     def kept(msg):
         st["returning"] = None
-        if st["collected"] or st["fin_done"]:
-            st["late"] = True
         if keep is not None:
             keep(msg)
     wrapper.on_undelivered_result = kept
@@ -179,7 +191,8 @@ async def one_run(loop, sc, k, c):
     def snapshot(lp=None):
         places = w.places()
         phase = 3 if st["fin_done"] else 2 if st["collected"] else 1 if st["fin_called"] else 0
-        snap = (phase, int(st["call"]), int(st["late"]), tuple(custody(i, places) for i in ids), tuple(int(expired_now(i)) for i in ids))
+        cust = tuple(custody(i, places) for i in ids)
+        snap = note_late(st, (phase, call_obs(st, cust), int(st["late"]), cust, tuple(int(expired_now(i)) for i in ids)))
         if not st["snaps"] or st["snaps"][-1] != snap:
             st["snaps"].append(snap)
 
@@ -209,6 +222,7 @@ async def one_run(loop, sc, k, c):
         if c is not None and not cancelled and n >= c:
             ct_.cancel()
             cancelled = True
+            st["cancel_req"] = True
         if fin is None and n >= k:
             async def do_finish():
                 st["fin_called"] = True
@@ -238,6 +252,253 @@ async def one_run(loop, sc, k, c):
             "initially_expired": [i for i in ids if i in sc["expired"]]}
 
 
+RABBIT_SCENARIOS = [
+    {"name": "rabbit_plain", "n": 3, "expiring": (), "max": 5, "wait": 0.0, "subs": False},
+    {"name": "rabbit_prefetch_1", "n": 3, "expiring": (), "max": 1, "wait": 0.0, "subs": True},
+    {"name": "rabbit_expiring_in_buffer", "n": 3, "expiring": (1, 3), "max": 5, "wait": 0.3, "subs": False},
+    # consume() is blocked on an empty buffer when the message is published, 3 loop iterations after the caller started
+    {"name": "rabbit_blocked_consume", "n": 1, "expiring": (), "max": 5, "wait": 0.0, "subs": False, "publish_at": {1: 3}},
+    {"name": "rabbit_blocked_consume_2", "n": 2, "expiring": (), "max": 5, "wait": 0.0, "subs": False, "publish_at": {2: 12}},
+]
+
+
+async def one_run_rabbit(loop, sc, k, c):
+    """the same experiment on the RabbitMQ consumer over the fake channel"""
+    import inspect
+    from repid.middlewares import Middleware
+    from .. import rabbitrun
+    from ..clock import CLOCK
+    from ..fakeamqp import ISSUER
+    from ..pyparams import mk_params
+    from ..world import key
+    w = rabbitrun.RabbitWorld()
+    tok = ISSUER.set(("api",))
+    ids = list(range(1, sc["n"] + 1))
+    st = {"received": set(), "returning": None, "nack_tags": set(), "reject_tags": set(), "call": False, "fin_called": False,
+          "fin_done": False, "collected": False, "late": False, "snaps": []}
+    try:
+        await w.mb.queue_declare("q1")
+        now = CLOCK.now_us()
+        ttl_of = {}
+        later = dict(sc.get("publish_at", {}))
+        unpublished = set(later)
+        for i in ids:
+            ttl = 200_000 if i in sc["expiring"] else None
+            ttl_of[i] = (now, ttl)
+            if i not in later:
+                await w.mb.enqueue(key(f"m{i}", "t1", "q1", 5), f"p{i}", mk_params(ts=now, ttl=ttl))
+        for opname, bag in (("basic_nack", st["nack_tags"]), ("basic_reject", st["reject_tags"])):
+            orig = getattr(w.srv, opname)
+
+            def make(orig=orig, bag=bag):
+                def op(tag, *a, **kw):
+                    bag.add(tag)
+
+                    async def run():
+                        try:
+                            return await orig(tag, *a, **kw)
+                        finally:
+                            bag.discard(tag)
+                    return run()
+                return op
+            setattr(w.srv, opname, make())
+        st["nacking_ids"] = set()
+        orig_nack = w.mb.nack
+
+        def nack(k_):                          # consume() hands an expired message to a shielded broker.nack(): issued here
+            i = rabbitrun.num(k_.id_)
+            st["nacking_ids"].add(i)
+
+            async def run():
+                try:
+                    return await orig_nack(k_)
+                finally:
+                    st["nacking_ids"].discard(i)
+            return run()
+        w.mb.nack = nack
+        cons = w.mb.get_consumer("q1", None, sc["max"])
+
+        st["got"] = None
+
+        class WatchedQueue(asyncio.Queue):
+            def qsize(self):                  # finish() drains the buffer with `while self.queue.qsize() > 0`: the collection
+                if st["fin_called"]:
+                    st["collected"] = True
+                return super().qsize()
+
+            async def get(self):              # consume() waits for the buffer in a helper task: the item is that task's result
+                item = await super().get()    # for an iteration - out of the buffer (finish() does not see it), not yet returned
+                st["got"] = rabbitrun.num(item[0].id_)
+                return item
+        cons.queue = WatchedQueue()
+        mw = Middleware()
+        if sc["subs"]:
+            async def before_consume() -> None:
+                await asyncio.sleep(0)
+
+            async def after_consume(result) -> None:
+                await asyncio.sleep(0)
+                await asyncio.sleep(0)
+            mw.add_subscriber(before_consume)
+            mw.add_subscriber(after_consume)
+        cons._signal_emitter = mw.emit_signal
+        wrapper = cons.consume
+        inner = wrapper.fn
+
+        async def logged():
+            st["inner_active"] = True
+            try:
+                msg = await inner()
+            finally:
+                st["inner_active"] = False
+            st["returning"] = rabbitrun.num(msg[0].id_)
+            return msg
+        wrapper.fn = logged
+        keep = getattr(wrapper, "on_undelivered_result", None)
+
+        def kept(msg):
+            st["returning"] = None
+            if keep is not None:
+                keep(msg)
+        wrapper.on_undelivered_result = kept
+
+        def expired_now(i):
+            ts, ttl = ttl_of[i]
+            return ttl is not None and CLOCK.now_us() > ts + ttl
+
+        def custody(i, places, tag_of, cb_state):
+            sp = [p[0] for p in places.get(i, [])]
+            if i in unpublished and not sp:
+                return Q                         # not published yet: for the consumer the same as waiting on the server
+            und = getattr(cons, "_RabbitConsumer__returned", None)
+            if i in st["received"]:
+                return CALLER if sp == ["unacked"] else LOST
+            if st["returning"] == i:
+                return RET
+            if und is not None and rabbitrun.num(und[0].id_) == i:
+                return UND
+            if i in [rabbitrun.num(k_.id_) for (k_, _, _) in list(cons.queue._queue)]:
+                return BUF
+            if sp == ["unacked"]:
+                tag = tag_of.get(i)
+                cb = cb_state.get(tag)
+                if cb == "created":
+                    return T1
+                if tag in st["nack_tags"] or i in st["nacking_ids"]:
+                    return NACK
+                if st["got"] == i and cb is None and tag not in st["reject_tags"]:
+                    return RET                   # consume()'s helper task has taken it out of the buffer: on its way to the caller
+                if cb == "running":
+                    return BOUNCE
+                if tag in st["reject_tags"]:
+                    return REJ
+                return LOST
+            if sp == ["ready"]:
+                return Q
+            if sp == ["dead"]:
+                return DEAD
+            return LOST
+
+        def snapshot(lp=None):
+            places = rabbitrun.w_state(w)["places"]
+            tag_of = {rabbitrun.num(u["msg"]["id"]): u["tag"] for u in w.srv.unacked}
+            cb_state = {}
+            for t in w.srv._cb_tasks:
+                if t.done():
+                    continue
+                co = t.get_coro()
+                fr = getattr(co, "cr_frame", None)
+                if fr is None or "message" not in fr.f_locals:
+                    continue
+                cb_state[fr.f_locals["message"].delivery_tag] = "created" if inspect.getcoroutinestate(co) == inspect.CORO_CREATED else "running"
+            phase = 3 if st["fin_done"] else 2 if st["collected"] else 1 if st["fin_called"] else 0
+            cust = tuple(custody(i, places, tag_of, cb_state) for i in ids)
+            snap = note_late(st, (phase, call_obs(st, cust), int(st["late"]), cust, tuple(int(expired_now(i)) for i in ids)))
+            if not st["snaps"] or st["snaps"][-1] != snap:
+                st["snaps"].append(snap)
+
+        async def caller():
+            try:
+                while True:
+                    st["call"] = True
+                    msg = await cons.consume()
+                    st["returning"] = None
+                    st["received"].add(rabbitrun.num(msg[0].id_))
+                    st["call"] = False
+                    await asyncio.sleep(0)
+            except asyncio.CancelledError:
+                st["call"] = False
+                raise
+
+        snapshot()
+        loop.step_hook = snapshot
+        await cons.start()
+        if sc["wait"]:
+            await asyncio.sleep(sc["wait"])
+        it0 = loop.iteration
+        ct_ = asyncio.ensure_future(caller())
+        fin = None
+        cancelled = False
+        pubs = []
+        while True:
+            n = loop.iteration - it0
+            for i, at in list(later.items()):
+                if n >= at:
+                    del later[i]
+                    pubs.append(asyncio.ensure_future(w.mb.enqueue(key(f"m{i}", "t1", "q1", 5), f"p{i}", mk_params(ts=now))))
+            if c is not None and not cancelled and n >= c:
+                ct_.cancel()
+                cancelled = True
+                st["cancel_req"] = True
+            if fin is None and n >= k:
+                async def do_finish():
+                    st["fin_called"] = True
+                    await cons.finish()
+                    st["fin_done"] = True
+                fin = asyncio.ensure_future(do_finish())
+            if fin is not None and fin.done() and (c is None or cancelled) and not later:
+                break
+            if n > 3000:
+                break
+            await asyncio.sleep(0)
+        await asyncio.gather(*pubs)
+        await asyncio.sleep(0.3)
+        await w.settle()
+        if not ct_.done():
+            ct_.cancel()
+            await asyncio.gather(ct_, return_exceptions=True)
+        await w.settle()
+        snapshot()
+    finally:
+        loop.step_hook = None
+        ISSUER.reset(tok)
+    err = None
+    if fin is None or not fin.done():
+        err = "finish() did not return"
+    elif fin.exception() is not None:
+        err = f"finish() raised {fin.exception()!r}"
+    return {"ids": ids, "snaps": st["snaps"], "err": err, "late": st["late"], "initially_expired": [], "push": True}
+
+
+def call_obs(st, cust) -> int:
+    """a consume() call is in progress - until its cancellation has taken effect: the request travels from the caller's task down
+    to consume()'s own and back, the model's HCancelCall is the moment the returned message (if any) changes hands"""
+    return int(st["call"] and not (st.get("cancel_req") and not st.get("inner_active") and RET not in cust))
+
+
+def note_late(st, snap):
+    """the model's `late`: a consume() call that held a returned message ended without delivering it, and the message is still
+    kept undelivered although finish() has collected - the cancellation came after the collection"""
+    prev = st["snaps"][-1] if st["snaps"] else None
+    if prev is None or st["late"]:
+        return snap
+    phase, call, _, cust, exp = snap
+    if prev[1] == 1 and call == 0 and phase >= 2 and any(a == RET and b == UND for a, b in zip(prev[3], cust)):
+        st["late"] = True
+        return (phase, call, 1, cust, exp)
+    return snap
+
+
 def segments(r):
     """[(events, observation)] between consecutive snapshots; None if a custody has no name or no path"""
     segs = []
@@ -251,7 +512,7 @@ def segments(r):
             return segs, f"custody unknown: {dict(zip(r['ids'], b[3]))}"
         delivered = [i for i, ca, cb in zip(r["ids"], a[3], b[3]) if cb == CALLER and ca != CALLER]
         for i, ca, cb in zip(r["ids"], a[3], b[3]):
-            p = path(ca, cb)
+            p = path(ca, cb, EDGES_PUSH if r.get("push") else EDGES)
             if p is None:
                 return segs, f"message {i}: no way from {NAMES[ca]} to {NAMES[cb]}"
             for e in p:
@@ -299,6 +560,15 @@ def check(ctx, res) -> None:
                     r = await one_run(loop, sc, k, c)
                     r.update({"scenario": sc, "k": k, "c": c})
                     runs.append(r)
+        for sc in RABBIT_SCENARIOS:
+            for k in range(0, ctx.scale(36, 80), 1 if ctx.tier == "thorough" else 2):
+                for c in (None, k - 6, k - 3, k - 1, k, k + 1, k + 2, k + 4):
+                    if c is not None and c < 0:
+                        continue
+                    loop.max_iterations = loop.iteration + 200_000
+                    r = await one_run_rabbit(loop, sc, k, c)
+                    r.update({"scenario": sc, "k": k, "c": c})
+                    runs.append(r)
     try:
         run_virtual(main)
     finally:
@@ -324,7 +594,7 @@ def check(ctx, res) -> None:
             res.failures.append(Failure("handover_state_outside_the_model", f"scenario {r['scenario']['name']}, finish() at {r['k']}, caller cancelled at "
                                         f"{r['c']}: {problem}", rep, None))
             continue
-        term = ct.pair(ct.pair(ct.pair(ct.zlist(r["ids"]), ct.zlist(r["initially_expired"])), "false"),
+        term = ct.pair(ct.pair(ct.pair(ct.zlist(r["ids"]), ct.zlist(r["initially_expired"]) if r["initially_expired"] else "(@nil Z)"), ct.B(bool(r.get("push")))),
                        ct.lst(ct.pair(ct.lst(evs), ct.zlist(o)) for evs, o in segs))
         if term in seen:
             res.count("handover_runs_with_a_trace_already_checked")
